@@ -1,6 +1,8 @@
 package optimizer
 
 import (
+	"reflect"
+
 	. "github.com/antonmedv/expr/ast"
 )
 
@@ -11,6 +13,15 @@ func (*inRange) Exit(node *Node) {
 	switch n := (*node).(type) {
 	case *BinaryNode:
 		if n.Operator == "in" || n.Operator == "not in" {
+			// The rewrite evaluates the left operand twice and compares it as
+			// an int: only a plain identifier of int type (or of a type not
+			// known yet) can be rewritten without changing the result.
+			if _, ok := n.Left.(*IdentifierNode); !ok {
+				return
+			}
+			if t := n.Left.Type(); t != nil && t.Kind() != reflect.Int {
+				return
+			}
 			if rng, ok := n.Right.(*BinaryNode); ok && rng.Operator == ".." {
 				if from, ok := rng.Left.(*IntegerNode); ok {
 					if to, ok := rng.Right.(*IntegerNode); ok {
